@@ -132,6 +132,11 @@ def instantiate(hyps, goal, max_terms=10, max_instances=4000, rounds=3, focused=
     """returns (ground_hyps, core_goal, n_instances, leftover): hyps with every top-level universal replaced by its
     instances over the candidate terms; goal skolemised.  Several rounds: terms exposed by the instances of one round are
     candidates in the next (needed for chains of contract axioms)."""
+    # hypotheses of an implication goal are hypotheses
+    hyps = list(hyps)
+    while z3.is_implies(goal) and not _is_forall(goal.arg(1)):
+        hyps.append(goal.arg(0))
+        goal = goal.arg(1)
     g = peel(goal, 'sk')
     goal_side = list(g.guards) + [g.body]
     flat = []
@@ -165,6 +170,11 @@ def instantiate(hyps, goal, max_terms=10, max_instances=4000, rounds=3, focused=
             lst.append(t)
     if not focused:
         extend(cand, ground, max_terms)
+    else:
+        # focused: also the terms of quantifier-free hypotheses that talk about a constant of the goal
+        gc = _constants(goal_side)
+        related = [h for h in ground if _constants([h]) & gc]
+        extend(cand, related, max_terms)
     # plain constants first (loop indices, skolems), compound terms after: pools are cut from the end
     for k in cand:
         cand[k].sort(key=lambda t: 0 if (z3.is_app(t) and t.num_args() == 0 and not z3.is_int_value(t)) else 1)
@@ -224,6 +234,26 @@ def instantiate(hyps, goal, max_terms=10, max_instances=4000, rounds=3, focused=
     ground2 = ground + [i for i in instances if not _contains_quantifier(i)]
     leftover = [i for i in instances if _contains_quantifier(i)] + mixed
     return ground2 + list(g.guards), g.body, total, leftover
+
+
+def _constants(es):
+    """names of the uninterpreted constants occurring in the expressions"""
+    out = set()
+    seen = set()
+    todo = list(es)
+    while todo:
+        x = todo.pop()
+        i = x.get_id()
+        if i in seen:
+            continue
+        seen.add(i)
+        if z3.is_quantifier(x):
+            todo.append(x.body())
+        elif z3.is_app(x):
+            if x.num_args() == 0 and x.decl().kind() == z3.Z3_OP_UNINTERPRETED:
+                out.add(x.decl().name())
+            todo.extend(x.children())
+    return out
 
 
 _cq_cache = {}
